@@ -58,12 +58,10 @@ def scenario(e, cfg):
             ctx = filler.__enter__()
             for i in range(n):
                 sp = ("train", "test")[e.choice(f"split{i}", 2)] if cfg["splits"] else "train"
-if i == 0 and "md0" in cfg.get("fixed", {}):
+                if i == 0 and "md0" in cfg.get("fixed", {}):
                     v = VALUES[cfg["fixed"]["md0"]]
                 else:
                     v = VALUES[e.choice(f"md{i}", nvals)]
-                if i == 0 and "md0" in cfg.get("fixed", {}):
-                    e.assume(True)
                 arg = None
                 if v is not None:
                     reuse = obj is not None and (len(v) > 0 or len(obj) > 0) and e.choice(f"reuse{i}", 2) == 1
